@@ -424,9 +424,9 @@ func main() {
 		// alignment, multi-byte runes): with pages of 1 every id ends a page and becomes a token
 		awkward := []string{"?", "a?", "ab?", "~", "a~", "ab~", ">", "a>", "ab>", "Hot?", "~spare", "tea>milk", "ab¿", "k茶", "so🍵", "ÿÿÿ", "\x7f\x7f"}
 		idSets = append(idSets, awkward, awkward[:6], awkward[6:12], awkward[12:])
-		big := []int{49, 50, 51}
+		big := []int{49, 50, 51, 1001} // 1001: one more than the largest page a server hands out
 		if s.Thorough {
-			big = append(big, 60, 999, 1000, 1001)
+			big = append(big, 60, 999, 1000)
 		}
 		for _, n := range big {
 			var set []string
@@ -441,11 +441,11 @@ func main() {
 				if !s.Own() {
 					continue
 				}
-				if strings.HasPrefix(l.name, "waste") && len(ids) > 60 {
-					continue
-				}
 				tokens := map[string]bool{}
 				for _, size := range sizes {
+					if strings.HasPrefix(l.name, "waste") && len(ids) > 60 && size > 0 && size < 1000 {
+						continue // the waste model starts with 100 records of its own: big sets only against the page cap
+					}
 					if len(ids) > 100 && size > 0 && size < 7 {
 						continue // 1000 items by pages of 1-3: nothing new over 50 items
 					}
